@@ -15,6 +15,8 @@ import (
 	"github.com/lidofinance/dc4bc/client/api/dto"
 	"github.com/lidofinance/dc4bc/client/services/node"
 	ctypes "github.com/lidofinance/dc4bc/client/types"
+	fsmtypes "github.com/lidofinance/dc4bc/fsm/types"
+	"github.com/lidofinance/dc4bc/pkg/utils"
 	"github.com/lidofinance/dc4bc/fsm/state_machines"
 	"github.com/lidofinance/dc4bc/fsm/types/requests"
 	"github.com/lidofinance/dc4bc/fsm/types/responses"
@@ -273,6 +275,50 @@ func scenarioC01(c *Ctx) {
 				}
 			}
 			c.Case("cluster-batch", true, fmt.Sprintf("skip c01-cluster-%d-%d", ci, b), fmt.Sprintf("skip c01-cluster-%d-%d", ci, b))
+		}
+		// the export (what `dc4bc_cli export_signatures` hands to the batch verifier): all batches of
+		// the round flattened - one further batch has been proposed and reached every node but nobody
+		// has answered it yet. Every signature in the dump must verify under the group key over the
+		// payload exported next to it, and that payload must be the proposed one
+		pending := []requests.SigningTask{{MessageID: "doc-pending", File: "pending.txt", Payload: []byte("a document nobody has signed yet")}}
+		cl.ProposeBatch(0, "batch-pending", pending)
+		cl.RunToQuiescence(func(cands []int) int { return c.Rng.Intn(len(cands)) }, func(i int, o *ctypes.Operation) bool { return false })
+		proposed := map[string][]byte{"doc-pending": pending[0].Payload}
+		for b := 0; b < batches; b++ {
+			proposed[fmt.Sprintf("doc-%d-a", b)] = []byte(fmt.Sprintf("document %d a", b))
+			proposed[fmt.Sprintf("doc-%d-b", b)] = []byte(fmt.Sprintf("document %d b", b))
+		}
+		for i := range cl.Nodes {
+			bz, _ := cl.Nodes[i].St.Get("signatures_" + cl.Round)
+			var st map[string]map[string][]fsmtypes.ReconstructedSignature
+			if json.Unmarshal(bz, &st) != nil {
+				continue
+			}
+			flat := map[string][]fsmtypes.ReconstructedSignature{}
+			for _, batch := range st {
+				for id, entries := range batch {
+					flat[id] = entries
+				}
+			}
+			for attempt := 0; attempt < 40; attempt++ { // the dump is built by ranging over a map
+				dump, err := utils.PrepareSignaturesToDump(flat)
+				if err != nil {
+					break
+				}
+				bad := ""
+				for id, e := range *dump {
+					want, ok := proposed[id]
+					if !ok || string(want) != string(e.Payload) {
+						bad = fmt.Sprintf("message %s is exported with a payload that was not proposed for it", id)
+					} else if len(e.Signature) > 0 && !prysmVerify(groupKey, e.Payload, e.Signature) {
+						bad = fmt.Sprintf("the signature exported for message %s (file %s) is not a signature of the exported payload under the group key", id, e.File)
+					}
+				}
+				if bad != "" {
+					fail("export-invalid", bad, map[string]interface{}{"n": cf.n, "t": cf.t, "node": i, "attempt": attempt})
+					break
+				}
+			}
 		}
 		cl.Close()
 	}
